@@ -65,40 +65,47 @@ static CK_ULONG add_n(int o) { return o == 0 ? OUT(add_n0) : o == 1 ? OUT(add_n1
 #define GOOD_CALL (SES(INIT) && SES(VALID) && !SES(TOKEN_NULL) && SES(OPTYPE) == 0 && !IN(createNull))
 #define OP_LEFT_NONE (SFX(SETOPTYPE_N) == 0 || SFX(SETOPTYPE_LAST) == 0)
 
-CK_RV vp_find(void)
-__CPROVER_requires(VP_FRESH_GHOST && !(TOK(SO) && TOK(USER)) && (!TOK(SO) || SES(RW)) && SES(OPTYPE) <= 0x10 && IN(w) <= 2)
-/* tier bounds */
-__CPROVER_requires(SES(TCOUNT) <= VP_FIND_TMAX && (VP_FIND_NOBJ >= 3 || !IN(present1)) && (VP_FIND_NOBJ >= 2 || !IN(present0) || !IN(present2)))
-__CPROVER_requires(SES(TCOUNT) <= VP_TMPL_MAX && TMPL(0, LEN) <= 8 && TMPL(1, LEN) <= 8 && (!SES(NULL_OUT) || SES(TCOUNT) == 0))
-/* C12: one operation at a time; a failed find leaves no active operation */
-__CPROVER_ensures((SES(INIT) && SES(VALID) && !SES(TOKEN_NULL) && SES(OPTYPE) != 0) ==> (RV == CKR_OPERATION_ACTIVE && VP_NO_EFFECT && OUT(setHandles_n) == 0))
-__CPROVER_ensures((RV != CKR_OK) ==> (OP_LEFT_NONE && OUT(setFindOp_n) == 0))
-__CPROVER_ensures((RV == CKR_OK) ==> (SFX(SETOPTYPE_N) >= 1 && SFX(SETOPTYPE_LAST) == 1 && OUT(setFindOp_n) == 1 && OUT(setHandles_n) == 1))
-/* C19: sound and complete for the witness object (any of the three) */
-__CPROVER_ensures((RV == CKR_OK) ==> (found(WO) == spec_found(WO)))
-/* success is guaranteed when nothing in the environment fails */
-__CPROVER_ensures((GOOD_CALL && TOK(DEC_OK) && !IN(addFails)) ==> (RV == CKR_OK))
-/* C01: a private object yields neither a handle nor a value in a public / SO session - even when the call fails later */
-__CPROVER_ensures((!VP_SES_USER && priv_of(WO)) ==> (add_n(WO) == 0 && !found(WO)))
-__CPROVER_ensures((!VP_SES_USER && priv_of(0) && priv_of(1) && priv_of(2)) ==> (CNT(VALUE_READS) == 0 && CNT(DECRYPT) == 0))
-/* handles are registered only for matching objects, once, with the object's own flags, this session and this slot */
-__CPROVER_ensures((add_n(WO) > 0) ==> (add_n(WO) == 1 && spec_found(WO) && OUT(add_priv) == (CK_ULONG)priv_of(WO) && \
-                  OUT(add_token) == (OBJB(WO, TOKEN) == 2) && OUT(add_slot) == SES(SLOTID) && (OUT(add_token) || OUT(add_hsess) == SES(HSESSION))))
-/* C14/C19: session objects are taken from this session's slot only */
-__CPROVER_ensures((OUT(sosGet_n) > 0) ==> (OUT(sos_slot) == SES(SLOTID)))
-/* a search modifies no object */
-__CPROVER_ensures(CNT(SET) == 0 && CNT(DELETE) == 0 && CNT(DESTROY) == 0)
-__CPROVER_assigns(__CPROVER_object_whole(vp_out), VP_SOFTHSM_FRAME);
+#define K_FIND(COUNT, T0, T1) \
+  __CPROVER_requires(SES(TCOUNT) == (COUNT) && ((COUNT) < 1 || TMPL(0, TYPE) == (T0)) && ((COUNT) < 2 || TMPL(1, TYPE) == (T1))) \
+  __CPROVER_requires(VP_FRESH_GHOST && !(TOK(SO) && TOK(USER)) && (!TOK(SO) || SES(RW)) && SES(OPTYPE) <= 0x10 && IN(w) <= 2) \
+/* tier bounds */ \
+  __CPROVER_requires(SES(TCOUNT) <= VP_FIND_TMAX && (VP_FIND_NOBJ >= 3 || !IN(present1)) && (VP_FIND_NOBJ >= 2 || !IN(present0) || !IN(present2))) \
+  __CPROVER_requires(SES(TCOUNT) <= VP_TMPL_MAX && TMPL(0, LEN) <= 8 && TMPL(1, LEN) <= 8 && (!SES(NULL_OUT) || SES(TCOUNT) == 0)) \
+/* C12: one operation at a time a failed find leaves no active operation */ \
+  __CPROVER_ensures((SES(INIT) && SES(VALID) && !SES(TOKEN_NULL) && SES(OPTYPE) != 0) ==> (RV == CKR_OPERATION_ACTIVE && VP_NO_EFFECT && OUT(setHandles_n) == 0)) \
+  __CPROVER_ensures((RV != CKR_OK) ==> (OP_LEFT_NONE && OUT(setFindOp_n) == 0)) \
+  __CPROVER_ensures((RV == CKR_OK) ==> (SFX(SETOPTYPE_N) >= 1 && SFX(SETOPTYPE_LAST) == 1 && OUT(setFindOp_n) == 1 && OUT(setHandles_n) == 1)) \
+/* C19: sound and complete for the witness object (any of the three) */ \
+  __CPROVER_ensures((RV == CKR_OK) ==> (found(WO) == spec_found(WO))) \
+/* success is guaranteed when nothing in the environment fails */ \
+  __CPROVER_ensures((GOOD_CALL && TOK(DEC_OK) && !IN(addFails)) ==> (RV == CKR_OK)) \
+/* C01: a private object yields neither a handle nor a value in a public / SO session - even when the call fails later */ \
+  __CPROVER_ensures((!VP_SES_USER && priv_of(WO)) ==> (add_n(WO) == 0 && !found(WO))) \
+  __CPROVER_ensures((!VP_SES_USER && priv_of(0) && priv_of(1) && priv_of(2)) ==> (CNT(VALUE_READS) == 0 && CNT(DECRYPT) == 0)) \
+/* handles are registered only for matching objects, once, with the object's own flags, this session and this slot */ \
+  __CPROVER_ensures((add_n(WO) > 0) ==> (add_n(WO) == 1 && spec_found(WO) && OUT(add_priv) == (CK_ULONG)priv_of(WO) && \
+                  OUT(add_token) == (OBJB(WO, TOKEN) == 2) && OUT(add_slot) == SES(SLOTID) && (OUT(add_token) || OUT(add_hsess) == SES(HSESSION)))) \
+/* C14/C19: session objects are taken from this session's slot only */ \
+  __CPROVER_ensures((OUT(sosGet_n) > 0) ==> (OUT(sos_slot) == SES(SLOTID))) \
+/* a search modifies no object */ \
+  __CPROVER_ensures(CNT(SET) == 0 && CNT(DELETE) == 0 && CNT(DESTROY) == 0) \
+  __CPROVER_assigns(__CPROVER_object_whole(vp_out), VP_SOFTHSM_FRAME)
 
-void vp_call_C_FindObjectsInit(void) { vp_rv = vp_find(); }
-void h_find(void)
-{
-  VP_HAVOC_SOFTHSM(); __CPROVER_havoc_object(vp_in); __CPROVER_havoc_object(vp_in_tbytes);
-  vp_call_C_FindObjectsInit();
-  VP_COVER(vp_rv == CKR_OK && OUT(found0) && (OUT(found1) || VP_FIND_NOBJ < 3) && (OUT(found2) || VP_FIND_NOBJ < 2) && SES(TCOUNT) == VP_FIND_TMAX);
-  VP_COVER(vp_rv == CKR_OK && !OUT(found0) && IN(present0) && OBJX(0, VALID) && SES(TCOUNT) == 1);
-  VP_COVER(vp_rv == CKR_OK && OUT(found0) && SES(TCOUNT) == 1 && TMPL(0, TYPE) == CKA_LABEL && TMPL(0, LEN) == 5 && priv_of(0));
-  VP_COVER(vp_rv == CKR_OK && OUT(found2) && SES(TCOUNT) == 1 && TMPL(0, TYPE) == CKA_CLASS);
-  VP_COVER(vp_rv == CKR_GENERAL_ERROR);
-  VP_COVER(vp_rv == CKR_OK && !VP_SES_USER && IN(present0) && priv_of(0) && !OUT(found0));
-}
+CK_RV vp_find_empty(void) K_FIND(0, 0, 0);
+CK_RV vp_find_ulong(void) K_FIND(1, CKA_CLASS, 0);
+CK_RV vp_find_bool(void) K_FIND(1, CKA_TOKEN, 0);
+CK_RV vp_find_bytes(void) K_FIND(1, CKA_LABEL, 0);
+CK_RV vp_find_two(void) K_FIND(2, CKA_LABEL, CKA_CLASS);
+
+
+#define HAV() do { VP_HAVOC_SOFTHSM(); __CPROVER_havoc_object(vp_in); __CPROVER_havoc_object(vp_in_tbytes); } while (0)
+void vp_call_find_empty(void) { vp_rv = vp_find_empty(); }
+void vp_call_find_ulong(void) { vp_rv = vp_find_ulong(); }
+void vp_call_find_bool(void) { vp_rv = vp_find_bool(); }
+void vp_call_find_bytes(void) { vp_rv = vp_find_bytes(); }
+void vp_call_find_two(void) { vp_rv = vp_find_two(); }
+void h_find_empty(void) { HAV(); vp_call_find_empty(); VP_COVER(vp_rv == CKR_OK && OUT(found0) && OUT(found2)); VP_COVER(vp_rv == CKR_OK && !VP_SES_USER && IN(present0) && priv_of(0) && !OUT(found0)); VP_COVER(vp_rv == CKR_OPERATION_ACTIVE); }
+void h_find_ulong(void) { HAV(); vp_call_find_ulong(); VP_COVER(vp_rv == CKR_OK && OUT(found0) && !OUT(found2) && IN(present2) && OBJX(2, VALID)); VP_COVER(vp_rv == CKR_OK && OUT(found2)); }
+void h_find_bool(void) { HAV(); vp_call_find_bool(); VP_COVER(vp_rv == CKR_OK && OUT(found0) && !OUT(found2) && IN(present2) && OBJX(2, VALID)); VP_COVER(vp_rv == CKR_OK && OUT(found2)); }
+void h_find_bytes(void) { HAV(); vp_call_find_bytes(); VP_COVER(vp_rv == CKR_OK && OUT(found0) && priv_of(0) && TMPL(0, LEN) == 5); VP_COVER(vp_rv == CKR_OK && OUT(found2) && !priv_of(2) && TMPL(0, LEN) == 8); VP_COVER(vp_rv == CKR_GENERAL_ERROR); VP_COVER(vp_rv == CKR_OK && OUT(found0) && TMPL(0, LEN) == 0); }
+void h_find_two(void) { HAV(); vp_call_find_two(); VP_COVER(vp_rv == CKR_OK && OUT(found0) && OUT(found2)); VP_COVER(vp_rv == CKR_OK && IN(present0) && OBJX(0, VALID) && !OUT(found0) && OUT(found2)); }
